@@ -29,6 +29,8 @@ pub enum GoalSpec {
     /// functor is one of equal, less_than, less_than_or_equal, greater_than, greater_than_or_equal
     Cmp(String, Term, Term),
     Print(Vec<Term>),
+    /// any other built-in predicate with arguments (count, append, print_list)
+    BuiltIn(String, Vec<Term>),
     Nl,
     Cut,
     Fail,
@@ -57,6 +59,9 @@ pub struct QuerySpec {
     pub functor: String,
     pub args: Vec<Term>,
     pub class: QueryClass,
+    /// build the query with parse_query(text) instead of make_query(terms)
+    #[serde(default)]
+    pub via_text: bool,
 }
 
 impl Term {
@@ -112,6 +117,9 @@ impl GoalSpec {
                 "print".to_string(),
                 Some(ts.iter().map(|t| t.to_suiron()).collect()),
             )),
+            GoalSpec::BuiltIn(name, ts) => {
+                Goal::BuiltInGoal(BuiltInPredicate::new(name.clone(), Some(ts.iter().map(|t| t.to_suiron()).collect())))
+            }
             GoalSpec::Nl => Goal::BuiltInGoal(BuiltInPredicate::new("nl".to_string(), None)),
             GoalSpec::Cut => Goal::BuiltInGoal(BuiltInPredicate::new("!".to_string(), None)),
             GoalSpec::Fail => Goal::BuiltInGoal(BuiltInPredicate::new("fail".to_string(), None)),
@@ -159,6 +167,12 @@ impl QuerySpec {
     /// Builds the query with the public query constructor (make_query), which
     /// is what parse_query does after parsing.
     pub fn to_suiron(&self) -> Goal {
+        if self.via_text {
+            // the other query constructor: text -> parse_query (which ends in make_query)
+            if let Ok(g) = parse_query(&self.to_string()) {
+                return g;
+            }
+        }
         let mut terms = vec![Unifiable::Atom(self.functor.clone())];
         terms.extend(self.args.iter().map(|t| t.to_suiron()));
         make_query(terms)
@@ -223,6 +237,7 @@ impl fmt::Display for GoalSpec {
                 write!(f, "{} {} {}", a, sym, b)
             }
             GoalSpec::Print(ts) => write!(f, "print({})", fmt_terms(ts)),
+            GoalSpec::BuiltIn(name, ts) => write!(f, "{}({})", name, fmt_terms(ts)),
             GoalSpec::Nl => write!(f, "nl"),
             GoalSpec::Cut => write!(f, "!"),
             GoalSpec::Fail => write!(f, "fail"),
